@@ -32,7 +32,10 @@ POOL_SHAPE = ["_", "_x", "__", "X", "Name", "a1", "a", "b", "k", "z", "Q", "x_1_
               # names of the generated code's own parameters and locals, as far as a reader of the README can guess them
               "salt_", "key", "w", "args", "population", "weights", "cum_weights", "input_id", "k", "u",
               # names of attributes of the evaluator object and of every Python object
-              "recompile", "run_experiment", "_checksum", "__call__", "__init__", "__class__", "__dict__", "__name__", "__doc__"]
+              "recompile", "run_experiment", "_checksum", "__call__", "__init__", "__class__", "__dict__", "__name__", "__doc__",
+              # words an API likes to use for options of a call (a keyword-only parameter added to the evaluator would capture them)
+              "default", "fallback", "strict", "debug", "seed", "timeout", "verbose", "context", "trace", "dry_run", "on_error", "callback",
+              "options", "config", "source", "source_code", "text", "name", "value", "group", "result", "field", "fields", "record"]
 # identifiers that are Python hard keywords (not DSL keywords) or names the generated code uses
 POOL_HOSTILE = [
     "class", "for", "lambda", "None", "True", "False", "is", "as", "assert", "async", "await", "break", "continue",
